@@ -39,6 +39,16 @@ Prog ==
     [] ProgId = 8 -> [def |-> FunDef("f", <<ParamArg("l", TList(I2, 4)), Arg("a", I2)>>,
                                      <<Ret(Sub(Name("l"), Name("a")))>>, I2),
                       pool |-> {<< <<"l", [T |-> "List", elts |-> <<CI(x), CI(2), CI(y), CI(0)>>]>> >> : x \in {1, 3}, y \in {0, 3}}]
+    \* the parameter's own name is WRITTEN in the body (the injected constant is only its initial value)
+    [] ProgId = 9 -> [def |-> FunDef("f", <<Arg("a", I2), ParamArg("c", I2), Arg("b", TBool)>>,
+                                     <<Assign("c", Bin("Add", Name("c"), CI(1))), If(Name("b"), <<Aug("c", "BitXor", Name("a"))>>, <<>>),
+                                       Ret(Bin("Add", Name("a"), Name("c")))>>, I4),
+                      pool |-> {<< <<"c", CI(v)>> >> : v \in 0..3}]
+    [] ProgId = 10 -> [def |-> FunDef("f", <<ParamArg("k", TBool), ParamArg("c", I2), Arg("a", I2)>>,
+                                      <<Assign("u", CI(0)), For("i", CallN("range", <<CI(3)>>), <<Aug("c", "Add", Name("a")), Aug("u", "BitXor", Name("c"))>>),
+                                        Assign("k", BoolOpN("Or", <<Name("k"), Cmp("Gt", Name("u"), CI(2))>>)),
+                                        Ret(IfE(Name("k"), Name("u"), Name("c")))>>, I4),
+                       pool |-> {<< <<"k", CB(b)>>, <<"c", CI(v)>> >> : b \in BOOLEAN, v \in {0, 1, 3}}]
 
 Init == hist = <<>>
 Next == /\ Len(hist) < MaxLen
